@@ -703,8 +703,39 @@ def gen_feat():
     scenario("feat-04", "feat", doc(css, body), expect=dict(flows={"main": W}, margin=True, page_w=260, page_h=160, conserve=True, line_height=12))
 
 
+# ------------------------------------------------------------------ family brk-* (avoided breaks: findEarlierPageBreak at every phase)
+
+def gen_brk():
+    # groups  figure(break-after:avoid) / caption(break-after:avoid) / paragraph, preceded by a varying number of
+    # filler lines so that the group meets the page bottom at every phase, on first and later pages of its parent
+    for n, (H, nested) in enumerate([(60, False), (70, True), (50, False)], start=1):
+        css = ("@page { size: 120px %dpx; margin: 0 }\n" % H) + "html, body { margin: 0; font-family: ahem; font-size: 10px; line-height: 10px }\np, div { margin: 0 }\n" \
+              "div.fig { break-after: avoid }\np.cap { break-after: avoid }\np { orphans: 2; widows: 2 }\n" + PROBE_CSS
+        body, flow = [], []
+        wi = 1
+
+        def W(k):
+            nonlocal wi
+            ws = words("w", k, wi); wi += k
+            flow.extend(ws)
+            return ws
+        for g in range(14):
+            for _ in range(g % 7 + 1):
+                body.append("<p>%s</p>" % W(1)[0])
+            fig = "".join("<p>%s</p>" % W(1)[0] for _ in range(3))
+            body.append('<div class=fig>%s</div>' % fig)
+            body.append('<p class=cap>%s</p>' % W(1)[0])
+            ws = W(5)
+            body.append("<p>%s%s</p>" % (" ".join(ws), (" " + probe()) if g in (4, 9) else ""))
+        inner = "\n".join(body)
+        if nested:
+            inner = "<div><div>%s</div></div>" % inner
+        scenario("brk-%02d" % n, "brk", doc(css, inner), expect=dict(flows={"main": flow}, page_w=120, page_h=H, conserve=True, line_height=10))
+
+
 def main():
     gen_pag()
+    gen_brk()
     gen_feat()
     gen_oof()
     gen_layouts()
